@@ -1,6 +1,7 @@
 import Nv.Model.C07
 import Nv.Proofs.C07Codec
 import Nv.Proofs.C07Round
+import Nv.Proofs.C07Calendar
 set_option linter.unusedSimpArgs false
 /-!
 C07 — property theorems for the snowflake id codec (model `Nv/Model/C07.lean`).
@@ -209,10 +210,35 @@ theorem cn_length {c : Cfg} (hc : Proved c) (cal : Calendar) (D : Int → Prop) 
     (cnStyle cal nb epoch id).length = 24 :=
   (cn_roundtrip_aux hc cal D law hl epoch id hid hD).1
 
-/- Stretch goal not reached: `shanghai.Lawful (fun t => 946684800000 ≤ t ∧ t ≤ 253402271999999)` (the
-   days↔civil round trip needs the 400-year-cycle case analysis; `omega` alone does not find it). The laws stay a
-   hypothesis of `cn_roundtrip`; the instance is validated against Go's `time` by the correspondence (`rt`, `parsex`,
-   `from`) and at the instants below by evaluation. -/
+/-- the instant of a non-negative id under an epoch from 2000-01-01 on (and before the year 6429) lies in the calendar's
+    domain 2000-01-01 … 9999-12-31 -/
+theorem cnMs_inCalendar {nb : BitVec 8} (hl : LayoutOk nb) (epoch id : BitVec 64) (hid : 0 ≤ id.toInt)
+    (he0 : 946684800000 ≤ epoch.toInt) (he1 : epoch.toInt ≤ 2 ^ 47) : InCalendar (cnMs nb epoch id).toInt := by
+  have hid' := toNat_lt_of_toInt_nonneg hid
+  have e : BitVec.sshiftRight id (nb + 12#8).toNat = (idFields id nb false).1 := rfl
+  have hts := ts_toInt hl false hid'
+  have hr := (idFields_ranges hl false hid').1
+  have hW : 2 ^ tsWidth nb ≤ 2 ^ 43 := by rcases hl with rfl | rfl | rfl <;> decide
+  have hlt : (idFields id nb false).1.toInt < 2 ^ 43 := by
+    rw [toInt_eq_toNat_of_lt (by omega)]; omega
+  have h0 : 0 ≤ (idFields id nb false).1.toInt := by rw [hts]; exact Int.natCast_nonneg _
+  unfold cnMs InCalendar
+  rw [e, BitVec.toInt_add, Int.bmod_eq_of_le (by omega) (by omega)]
+  omega
+
+/-- **round trip through the date form, concrete calendar**: with the millisecond accessor, for the calendar the oracle
+    runs (`shanghai`: Asia/Shanghai as the fixed offset +08:00, proleptic Gregorian — proved lawful in
+    `Nv/Proofs/C07Calendar.lean`), every layout, every epoch from 2000-01-01 on and every non-negative id:
+    the date form has 24 characters and converts back to the identical id -/
+theorem cn_roundtrip_shanghai {c : Cfg} (hc : Proved c) {nb : BitVec 8} (hl : LayoutOk nb) (epoch id : BitVec 64)
+    (hid : 0 ≤ id.toInt) (he0 : 946684800000 ≤ epoch.toInt) (he1 : epoch.toInt ≤ 2 ^ 47) :
+    (cnStyle shanghai nb epoch id).length = 24 ∧
+    fromChStyle c shanghai nb epoch (cnStyle shanghai nb epoch id) = some id :=
+  cn_roundtrip_aux hc shanghai InCalendar shanghai_lawful hl epoch id hid (cnMs_inCalendar hl epoch id hid he0 he1)
+
+/-- non-vacuity of `cn_roundtrip`'s hypothesis: the instance and its domain -/
+example : shanghai.Lawful InCalendar := shanghai_lawful
+example : InCalendar 946684800000 ∧ InCalendar 253402271999999 ∧ ¬ InCalendar 253402272000000 := by decide
 
 /-! ### non-vacuity -/
 
